@@ -114,7 +114,10 @@ pub fn gen_text(r: &mut Rng, ascii_lf: bool) -> String {
     let mut lines: Vec<String> = vec![];
     for _ in 0..r.range(2, 7) {
         let w = r.pick(words).to_string();
-        let line = match r.below(8) {
+        let line = match r.below(10) {
+            // a list whose only item is still empty (the user has just typed the marker)
+            8 => "-".to_string(),
+            9 => "1.".to_string(),
             0 => format!("# {} [t](n1) end", w),
             1 => format!("{} [text {}](n2) and [[n3]] tail", w, r.pick(words)),
             2 => format!("- {} [i](n1.md)", w),
@@ -124,7 +127,7 @@ pub fn gen_text(r: &mut Rng, ascii_lf: bool) -> String {
             6 => format!("{} **[b](n1)** `code` [[n2|p {}]]", w, r.pick(words)),
             _ => format!("{} plain {}", w, r.pick(words)),
         };
-        let is_item = line.starts_with("- ");
+        let is_item = line.starts_with("- ") || line == "-" || line == "1.";
         lines.push(line);
         // a line right after a tight list item would be its lazy continuation (finding D33)
         if is_item || r.chance(1, 2) {
